@@ -100,8 +100,10 @@ def run(tier, seed):
     # design-level mismatches only (MODEL-DRIFT) are not violations
     kept = []
     for v in rep.violations[before:]:
-        names = v[0].split(":", 1)[1].split(";") if ":" in v[0] else []
-        if names and all(n.startswith("Design") for n in names if n):
+        names = [n for n in (v[0].split(":", 1)[1].split(";") if ":" in v[0] else []) if n]
+        if not names:
+            raise vlib.ToolFailure("trace spec has no enabled step for a recorded event (spec/hook mismatch): " + v[1][:300])
+        if all(n.startswith("Design") for n in names):
             drift.append(v[1][:300])
         else:
             kept.append(v)
